@@ -117,6 +117,9 @@ func (Engine) Execute(planJSON json.RawMessage, scratch string) (res sim.RunResu
 		}
 	}
 
+	if p.Poip {
+		res.Count("probe_pcap_over_ip_feed", 1)
+	}
 	fatal := false
 	func() {
 		defer func() {
